@@ -56,6 +56,23 @@ def gen_api(kind, pkgname, outdir):
     return p
 
 
+def render_files(run, outdir):
+    """harness files; *.tmpl files are shared between packages and get the package clause of the first file"""
+    files = [os.path.join(V, f) for f in run["files"]]
+    pk = pkgname_of([f for f in files if not f.endswith(".tmpl")][0])
+    out = []
+    for f in files:
+        if f.endswith(".tmpl"):
+            d = os.path.join(outdir, "tmpl_" + pk)
+            os.makedirs(d, exist_ok=True)
+            p = os.path.join(d, os.path.basename(f)[:-5])
+            open(p, "w").write(open(f).read().replace("PKGNAME", pk))
+            out.append(p)
+        else:
+            out.append(f)
+    return out, pk
+
+
 def tier_sel(d, tier, key, default=None):
     """value of d[key] possibly overridden by d[tier][key]"""
     v = d.get(key, default)
@@ -65,8 +82,7 @@ def tier_sel(d, tier, key, default=None):
 
 
 def run_func(binp, pid, tier, run, fn, outdir, fixed=None, tag=""):
-    files = [os.path.join(V, f) for f in run["files"]]
-    pk = pkgname_of(files[0])
+    files, pk = render_files(run, outdir)
     api = gen_api("sym", pk, os.path.join(outdir, "api_sym_" + pk))
     env = dict(tier_sel(fn, tier, "env", {}) or {})
     fs = {"name": fn["name"], "merge": fn.get("merge", []), "redirect": fn.get("redirect", {}),
@@ -77,7 +93,7 @@ def run_func(binp, pid, tier, run, fn, outdir, fixed=None, tag=""):
     spec = {"repo": REPO, "pkg": run["pkg"], "dir": run["dir"], "files": files + [api],
             "init": run.get("init", []), "redirect": run.get("redirect", {}), "merge": run.get("merge", []),
             "opaque": run.get("opaque", []), "funcs": [fs]}
-    base = os.path.join(outdir, fn["name"] + tag)
+    base = os.path.join(outdir, fn.get("id", fn["name"]) + tag)
     json.dump(spec, open(base + ".spec.json", "w"), indent=1)
     t0 = time.time()
     e = dict(GOENV)
@@ -101,9 +117,8 @@ def run_func(binp, pid, tier, run, fn, outdir, fixed=None, tag=""):
 
 def native_replay(pid, run, fn, viol, outdir, env, idx):
     """Replays a model against the natively compiled real code. Returns (status, detail, path)."""
-    files = [os.path.join(V, f) for f in run["files"]]
-    pk = pkgname_of(files[0])
-    d = os.path.join(outdir, "replay_%s_%d" % (fn["name"], idx))
+    files, pk = render_files(run, outdir)
+    d = os.path.join(outdir, "replay_%s_%d" % (fn.get("id", fn["name"]), idx))
     os.makedirs(d, exist_ok=True)
     api = gen_api("native", pk, d)
     test = os.path.join(d, "zz_replay_test.go")
@@ -191,7 +206,7 @@ def main():
             tiers = fn.get("tiers", ["quick", "thorough"])
             if tier not in tiers:
                 continue
-            if only and fn["name"] != only:
+            if only and only not in (fn["name"], fn.get("id")):
                 continue
             jobs.append((run, fn))
     # VERIF_SEED only permutes the order in which harnesses are started
@@ -217,7 +232,7 @@ def main():
     discharged = 0
     for r in results:
         fn, run = r["fn"], r["run"]
-        name = fn["name"]
+        name = fn.get("id", fn["name"])
         res = r["res"]
         fr = None
         if res and res.get("funcs"):
@@ -250,7 +265,7 @@ def main():
         stubs.update(fr.get("stubs") or [])
         for s in (fr.get("samples") or [])[:2]:
             samples.append({"func": name, **s})
-        fe = {"func": name, "pkg": run["pkg"], "bounds": r["env"], "bounds_note": tier_sel(fn, tier, "bounds_note", fn.get("bounds_note", "")),
+        fe = {"func": fn["name"], "id": name, "pkg": run["pkg"], "bounds": r["env"], "bounds_note": tier_sel(fn, tier, "bounds_note", fn.get("bounds_note", "")),
               "paths": fr["paths"], "queries": fr["queries"], "merges": fr["merges"],
               "solver_s": round(fr["solver_s"], 2), "wall_s": round(r["wall"], 1), "load_s": round(res.get("load_s", 0), 1),
               "assert_hits": asserts, "witness_reached": {k: v for k, v in wit.items() if k.startswith("reach:")},
@@ -268,7 +283,7 @@ def main():
         # finding is therefore still reported)
         groups = {}
         for v in fr.get("violations") or []:
-            kf = match_known(pid, name, v)
+            kf = match_known(pid, fn["name"], v)
             groups.setdefault((v["label"], kf["id"] if kf else None), (v, kf))
         fe["counterexamples_total"] = len(fr.get("violations") or [])
         for idx, ((label, _kid), (v, kf)) in enumerate(sorted(groups.items(), key=lambda kv: (kv[0][0], kv[0][1] or ""))):
